@@ -76,6 +76,25 @@ class Delay(flow.Actor):
         return rows
 
 
+class Pick(flow.Actor):
+    """One column of the rows (three of these consume the same upstream result: a 3-way fan-out)."""
+
+    def __init__(self, column: int):
+        self._column = column
+
+    def apply(self, rows):  # pylint: disable=arguments-differ
+        return [r[self._column] for r in rows]
+
+
+class Zip3(flow.Actor):
+    """Recombine the three columns into rows; values leaking in from another request show up as crossed rows."""
+
+    def apply(self, rids, xs, delays):  # pylint: disable=arguments-differ
+        if not len(rids) == len(xs) == len(delays):
+            raise RuntimeError(f'column lengths differ: {len(rids)}/{len(xs)}/{len(delays)}')
+        return list(zip(rids, xs, delays))
+
+
 class Const(flow.Actor):
     """Learns a constant; the answer identifies both the payload row and the model."""
 
@@ -132,8 +151,12 @@ project.setup(project.Source.query(sa.Req.select(sa.Req.rid, sa.Req.x, sa.Req.de
 
 PIPELINE_MODULE = '''
 from forml import project
-from forml.pipeline import wrap
+from forml.pipeline import payload, wrap
 from vf.proj import serve_actors as sa
 
-project.setup(wrap.Operator.mapper(sa.Delay)() >> wrap.Operator.apply(sa.Const)())
+project.setup(
+    wrap.Operator.mapper(sa.Delay)()
+    >> payload.MapReduce(sa.Pick.builder(0), sa.Pick.builder(1), sa.Pick.builder(2), reducer=sa.Zip3.builder())
+    >> wrap.Operator.apply(sa.Const)()
+)
 '''
